@@ -174,6 +174,14 @@ def gen(cls, idx, rng, tier):
                 break
             holes.append((pos, ln, rng.choice([1, 2, 30])))
             pos += ln
+    if cls == "full" and rng.random() < .4:
+        # everything but the last k entries of the router is taken: a table
+        # of k entries fits exactly at the very end (block base 1024 - k)
+        k = rng.choice([1, 1, 2, 3, 7])
+        holes = [(1, 1023 - k, rng.choice([1, 2, 30]))]
+        for t in tables[:1]:
+            t["entries"] = t["entries"][:k + rng.choice([0, 0, 0, 1])]
+        tables = tables[:1]
     return dict(kind="load", tables=tables, holes=holes,
                 rtr_fail=cls == "refuse" and rng.random() < .4,
                 buf=rng.choice([64, 256, 255]),
